@@ -556,4 +556,20 @@ theorem zipIdx_tupleGet {α} (x : List α) (vs : List Val) (h : vs.length = x.le
   · intro i h1 h2
     simp [tupleGet, List.getD_eq_getElem?_getD, h2]
 
+/-- the rows of the original table as `(x cells, y cell, z cell)` triples -/
+def tRows (t : Table) (x : List String) (y : String) (zs : List Cell) : List (List Val × Val × Val) :=
+  (List.range t.nrows).map fun i => (xCells t x i, yCell t y i, Val.cell (zs.getD i .none))
+
+theorem isNoneV_cell (c : Cell) : (!isNoneV (.cell c)) = (c != .none) := by
+  cases c <;> rfl
+
+theorem tRows_filter (t : Table) (x : List String) (y : String) (zs : List Cell) :
+    (tRows t x y zs).filter (fun r => !isNoneV r.2.2) =
+      ((List.range t.nrows).filter fun i => zs.getD i .none != .none).map fun i =>
+        (xCells t x i, yCell t y i, Val.cell (zs.getD i .none)) := by
+  rw [tRows, List.filter_map]
+  congr 2
+  funext i
+  exact isNoneV_cell _
+
 end Pyg
